@@ -181,6 +181,17 @@ CHECKS = {
         "wire does); the HTTP/bottle layer is not in the loop.",
         "DESIGN.md section 2 C19",
     ),
+    "C20": (
+        "fault_enumeration",
+        "strace-injected SIGKILL and ENOSPC/EIO at every (syscall name, K) inside each of 6 producers x 2 pre-states (calibrated per run by "
+        "marker stat() calls); oracle: the final path is absent or parses completely",
+        "The file system only changes at system calls, so killing the producer on entry to its K-th openat/write/close/rename/unlink/mkdir/... "
+        "enumerates its crash states for the given input; the two render producers are strided in the quick tier and complete in the "
+        "thorough tier. Each point is one generated input (producer, pre-state, fault, syscall, K) with its own replay file.",
+        "kill -9 model (no power-loss/fsync reasoning, no partially executed large write); needs ptrace (strace) - the check exits 2, not 1, "
+        "where that is not permitted; archive content is one fixed small collection.",
+        "DESIGN.md section 2 C20",
+    ),
 }
 
 NOT_YET = {}
